@@ -477,9 +477,8 @@ func derivedFromGlobal(v ssa.Value, g *ssa.Global, depth int) bool {
 }
 
 func checkGlobals(P *Program, prop string) []StructResult {
-	if prop != "C14" {
-		return nil
-	}
+	// every package-level variable belongs to C14; a declaration `global g <discipline> also Cxx` makes the same
+	// obligation part of another property's check as well (atomTable: atoms are canonical, C02)
 	var out []StructResult
 	for _, path := range []string{enginePath, rootPath} {
 		pkg := P.Pkgs[path]
@@ -493,18 +492,30 @@ func checkGlobals(P *Program, prop string) []StructResult {
 		for _, n := range names {
 			g := pkg.Members[n].(*ssa.Global)
 			disc, except := "write-once", map[string]bool{}
+			also := map[string]bool{}
 			if d, ok := P.Globals[n]; ok {
 				f := strings.Fields(d.Attr)
 				if len(f) > 0 {
 					disc = f[0]
 				}
 				for i, w := range f {
+					if w == "also" {
+						for _, e := range f[i+1:] {
+							if e == "except" {
+								break
+							}
+							also[e] = true
+						}
+					}
 					if w == "except" && i+1 < len(f) {
 						for _, e := range strings.Split(f[i+1], ",") {
 							except[e] = true
 						}
 					}
 				}
+			}
+			if prop != "C14" && !also[prop] {
+				continue
 			}
 			res := StructResult{Name: "global:" + pkg.Pkg.Name() + "." + n + ":" + disc, OK: true}
 			var bad []string
